@@ -69,11 +69,86 @@ def schedule_direction(prog, an, f):
     return None
 
 
-def check_parallel(prog, an, rep, cn, name, f, c, decl):
+def reached_walkers(prog, an, f, depth=0):
+    """schedule walkers a function reaches, context-sensitively for function-pointer arguments:
+    [(walker Func, direction)].  A driver's calls through its own parameters are resolved from the
+    actual arguments at this call site, never from other callers."""
+    from ..ir import resolve_fnptr
+    own = schedule_direction(prog, an, f)
+    if own is not None:
+        return [(f, own)]
+    out = []
+    if depth > 2:
+        return out
+    for i in f.all_insts():
+        if i["op"] != "call":
+            continue
+        c = i["callee"]
+        if c[0] == "f":
+            g = prog.resolve(f.unit, c[1])
+            if g is None:
+                continue
+            d = schedule_direction(prog, an, g)
+            if d is not None:
+                out.append((g, d))
+                continue
+            # function-pointer actuals handed to a driver
+            for j, o in enumerate(i["ops"]):
+                if j < len(g.params) and "(" in g.params[j]["type"]:
+                    ts, complete = resolve_fnptr(prog, f, o)
+                    for t in ts:
+                        dt = schedule_direction(prog, an, t)
+                        if dt is not None:
+                            out.append((t, dt))
+            out += reached_walkers(prog, an, g, depth + 1)
+        elif c[0] == "i":
+            for t in indirect_targets(prog, f, i):
+                dt = schedule_direction(prog, an, t)
+                if dt is not None:
+                    out.append((t, dt))
+        # c[0] == "a": a call through this function's own parameter - bound by the caller's actuals above
+    uniq = []
+    for x in out:
+        if x not in uniq:
+            uniq.append(x)
+    return uniq
+
+
+def locate_loops(prog, an, f, decl):
+    """the function that holds the data loops: f itself, or (wrapper idiom) the single library callee that
+    receives f's parameters unchanged.  Returns (g, {f param idx: g param idx}, {g param idx: [Func]})."""
+    from ..ir import resolve_fnptr
+    if f.loops():
+        return f, {k: k for k in range(len(f.params))}, {}
+    calls = [i for i in f.all_insts() if i["op"] == "call" and i["callee"][0] == "f" and prog.resolve(f.unit, i["callee"][1]) is not None]
+    if len(calls) != 1:
+        return f, {k: k for k in range(len(f.params))}, {}
+    call = calls[0]
+    g = prog.resolve(f.unit, call["callee"][1])
+    amap, binds = {}, {}
+    for j, o in enumerate(call["ops"]):
+        o2 = o
+        while o2[0] == "i" and f.insts[o2[1]]["op"] in CASTS:
+            o2 = f.insts[o2[1]]["ops"][0]
+        if o2[0] == "a":
+            amap[o2[1]] = j
+        elif j < len(g.params) and "(" in g.params[j]["type"]:
+            ts, complete = resolve_fnptr(prog, f, o)
+            binds[j] = ts
+    if not g.loops():
+        return f, {k: k for k in range(len(f.params))}, {}
+    return g, amap, binds
+
+
+def check_parallel(prog, an, rep, cn, name, f0, c, decl):
+    f, amap, binds = locate_loops(prog, an, f0, decl)
     cons = construct(f)
     P = PE(f)
     B = block_size(name)
-    pidx = {p["name"]: k for k, p in enumerate(decl["params"])}
+    pidx = {p["name"]: amap[k] for k, p in enumerate(decl["params"]) if k in amap}
+    if "ecb" not in pidx:
+        rep.inconclusive("C07.R1", construct(f0), fsite(f0), "the object handle is not passed on to the function holding the data loops", cfg=cn)
+        return
     hidx = pidx["ecb"]
     ps_t = state_term(prog, f, hidx, "parallel_size")
     am = an.summaries[f.key].fa.am
@@ -102,15 +177,21 @@ def check_parallel(prog, an, rep, cn, name, f, c, decl):
                 continue
             call = calls[0]
             # what the callee consumes
-            if call["callee"][0] == "i":
-                targets = indirect_targets(prog, f, call)
+            if call["callee"][0] in ("i", "a"):
+                cop = call["callee"]
+                while cop[0] == "i" and f.insts[cop[1]]["op"] in CASTS:
+                    cop = f.insts[cop[1]]["ops"][0]
+                if cop[0] == "a" and cop[1] in binds:
+                    targets = binds[cop[1]]        # function-pointer argument bound at this entry point's call
+                else:
+                    targets = indirect_targets(prog, f, call)
                 exts = {output_extent(prog, an, g) for g in targets}
                 # the loop must step by the object's parallel_size field
                 consumed = None
                 psz_atom = None
                 for ph in hphis:
                     pass
-                kind_c = "slot"
+                kind_c = "slot" if not (exts and all(e == B for e in exts)) else "scalar"
             else:
                 g = prog.resolve(f.unit, call["callee"][1])
                 targets = [g] if g else []
@@ -171,9 +252,9 @@ def check_parallel(prog, an, rep, cn, name, f, c, decl):
             # amount
             if kind_c == "scalar":
                 if not lf_is_const(d) or exts != {d[0]} or d[0] != B:
-                    rep.violation("C07.R1", label, f.loc(call), "scalar tail steps by %s but %s processes %s bytes per call (block size %d)" % (lf_str(d), call["callee"][1], sorted(exts), B), cfg=cn)
+                    rep.violation("C07.R1", label, f.loc(call), "scalar tail steps by %s but %s processes %s bytes per call (block size %d)" % (lf_str(d), [t.name for t in targets], sorted(exts), B), cfg=cn)
                 else:
-                    rep.ok("C07.R1", label, f.loc(call), "scalar tail: output, input%s and size all step by %d = bytes processed by %s" % (", tweak" if len(ptr_phis) == 3 else "", B, call["callee"][1]), cfg=cn)
+                    rep.ok("C07.R1", label, f.loc(call), "scalar tail: output, input%s and size all step by %d = bytes processed by %s" % (", tweak" if len(ptr_phis) == 3 else "", B, [t.name for t in targets]), cfg=cn)
                 guard_need = lf_const(B)
             else:
                 # d must be the value loaded from ecb->parallel_size
@@ -209,7 +290,7 @@ def check_parallel(prog, an, rep, cn, name, f, c, decl):
             if want_dir:
                 for g in targets:
                     dr = schedule_direction(prog, an, g)
-                    inst = "%s:%s->%s" % (cons, kind_c, g.name)
+                    inst = "%s:%s->%s" % (construct(f0), kind_c, g.name)
                     if dr == want_dir:
                         rep.ok("C07.R4", inst, f.loc(call), "%s dispatches to a %s schedule walker" % (name, dr), cfg=cn)
                     elif dr is None and not any(cs.may for cs in an.summaries[g.key].cls.values()):
@@ -220,7 +301,9 @@ def check_parallel(prog, an, rep, cn, name, f, c, decl):
     if nloops != 2:
         rep.inconclusive("C07.R1", cons, fsite(f), "%d loops (expected the vector loop and the scalar tail)" % nloops, cfg=cn)
     # R5: zero-length path returns 1 and touches nothing: the only writes are inside the loops (guarded by size >= B)
-    s = an.summaries[f.key]
+    s = an.summaries[f0.key]
+    cons = construct(f0)
+    f = f0
     if 1 in s.retconsts and s.c("nz") is not None:
         rep.ok("C07.R5", cons + ":empty", fsite(f), "all data accesses are inside loops guarded by size >= block; size 0 falls through to return 1", cfg=cn)
 
